@@ -707,9 +707,17 @@ class Unwind(Exception):
     """the program's own `raise`"""
 
 
+_UNOBSERVED = [False]
+
+
 def merged_of(c):
     """`get_context_arguments()`, canonical; the caller then keeps the dictionary it was handed (the first few,
-    re-checked at the end of the history) or scribbles on it (all others)"""
+    re-checked at the end of the history) or scribbles on it (all others).
+    In an UNOBSERVED case (case["unobserved"]) the harness does not ask: a user's program issues commands, it does not
+    call get_context_arguments() at every block boundary, and the question itself may refresh what the implementation
+    remembers between two commands; such cases are judged by their commands (wire oracle) and the final context only."""
+    if _UNOBSERVED[0]:
+        return None
     try:
         d = c.get_context_arguments()
     except Exception as e:      # (RecursionError on a deep stack, ...): shows up as a difference from the model
@@ -894,6 +902,7 @@ def run_impl(case):
     if _DEFAULTS[0] is None:
         _DEFAULTS[0] = default_contexts()
     w = World(case["cls"], case["cfg"], case.get("init"))
+    _UNOBSERVED[0] = bool(case.get("unobserved"))
     events = []
     raised = [False]
     real_time = w.mod.time
@@ -932,6 +941,7 @@ def run_impl(case):
         if w2 is not None:
             w2.close()
         w.close()
+    _UNOBSERVED[0] = False
     stack_merged = merged_of(w.c)
     res = {"events": events, "raised": raised[0], "merged": stack_merged}
     if w2 is not None:
@@ -1135,15 +1145,21 @@ def evaluate(ctx, cases):
                     nontriv = True
             elif e["ev"] == "enter":
                 ctx.tag("enter:object-%s" % e.get("object", "fresh"))
-                if sorted_pairs(m["merged"]) != e["merged"]:
+                if e["merged"] is None:
+                    ctx.tag("enter:unobserved")
+                elif sorted_pairs(m["merged"]) != e["merged"]:
                     ctx.mismatch("c18.enter", "context after entering block %d differs: impl=%r model=%r" % (e["id"], e["merged"], m["merged"]), desc)
             else:  # exit
                 ctx.tag("exit:%s" % ("app" if e["app"] else "block"))
                 if e.get("cb"):
                     ctx.tag("exit:with-callbacks")
-                if sorted_pairs(m["before"]) != e["before"]:
+                if e["merged"] is None or e["before"] is None:
+                    pass        # unobserved case: judged by its commands and the final context
+                elif sorted_pairs(m["before"]) != e["before"]:
                     ctx.mismatch("c18.exit", "context before block %d differs: impl=%r model=%r" % (e["id"], e["before"], m["before"]), desc)
-                if e["merged"] != e["before"]:
+                if e["merged"] is None or e["before"] is None:
+                    pass
+                elif e["merged"] != e["before"]:
                     if m["restored"]:
                         ctx.violation("context-not-restored",
                                       "after leaving block %d the arguments in force are %r, before it they were %r" % (
@@ -1151,7 +1167,7 @@ def evaluate(ctx, cases):
                     else:
                         # update_current_context inside the block changed an object that is also active below it
                         ctx.tag("exit:aliased-update")
-                if sorted_pairs(m["merged"]) != e["merged"]:
+                if e["merged"] is not None and sorted_pairs(m["merged"]) != e["merged"]:
                     ctx.mismatch("c18.exit", "context after leaving block %d differs: impl=%r model=%r" % (e["id"], e["merged"], m["merged"]), desc)
                 if e["app"]:
                     stop = m["stop"]
@@ -1784,8 +1800,8 @@ def reuse_cases(ctx, rng, reps):
                       "exc_exit": exc, "label": "reuse/" + label})
 
     for rep in range(reps):
-        for variant in range(10):
-            cls = bmp if variant == 7 else mc
+        for variant in range(13):
+            cls = bmp if variant in (7, 12) else mc
             cfg = random_cfg(rng, cls)
             g = Gen(rng, cls, cfg)
             if cls == mc:
@@ -1834,6 +1850,21 @@ def reuse_cases(ctx, rng, reps):
             elif variant == 6:
                 # callbacks registered once on a kept object run on every exit of it, in the context being closed
                 prog = [new(1, A, cb=[probe()]), enter(1, [block(B, [enter(1, [probe()]), probe()])]), enter(1, []), probe()]
+            elif variant in (10, 12):
+                # the canonical loop `core = mc(p=3); for x, y in chips: with mc(x=x, y=y), core: command`: the SAME kept
+                # object on top of DIFFERENT enclosing blocks in consecutive commands, no command in between (a merge
+                # of the stack remembered per top-of-stack object would be stale here)
+                inner = g.decoys(names[:1])
+                prog = [new(1, inner)] + [block(g.decoys(names), [enter(1, [probe()] * rng.randrange(1, 3))])
+                                          for _ in range(rng.randrange(2, 5))] + [probe()]
+            elif variant == 11:
+                # the same, with what lies beneath the kept object changed by update_current_context, by a nested
+                # re-entry and by leaving the enclosing block - again without a command in between
+                inner = g.decoys(names[:1])
+                prog = [new(1, inner),
+                        block(g.decoys(names), [enter(1, [probe()]), {"s": "update", "kv": g.decoys(names[1:])},
+                                                enter(1, [probe(), block(g.decoys(names[1:]), [enter(1, [probe()])]), probe()])]),
+                        enter(1, [probe()]), probe()]
             elif variant == 8:
                 # two kept objects interleaved: a b a b a, left one by one with a command after each exit
                 def nest(seq):
@@ -1846,20 +1877,26 @@ def reuse_cases(ctx, rng, reps):
                 objs = {1: A, 2: B, 3: g.decoys(names[:1])}
 
                 def rnd(depth):
-                    out = [probe()]
+                    # commands are optional at every point: two consecutive commands may see the same object on top of
+                    # the stack with different blocks beneath it
+                    maybe = lambda: [probe()] if rng.random() < 0.6 else []
+                    out = maybe()
                     for _ in range(rng.randrange(1, 3)):
                         r = rng.random()
                         if depth >= 5 or r < 0.15:
                             out.append(probe())
                         elif r < 0.75:
-                            out += [enter(rng.choice(sorted(objs)), rnd(depth + 1)), probe()]
+                            out += [enter(rng.choice(sorted(objs)), rnd(depth + 1))] + maybe()
                         elif r < 0.9:
-                            out += [block(g.decoys([rng.choice(names)]), rnd(depth + 1)), probe()]
+                            out += [block(g.decoys([rng.choice(names)]), rnd(depth + 1))] + maybe()
                         else:
                             out += [{"s": "try", "body": [enter(rng.choice(sorted(objs)), rnd(depth + 1) + [{"s": "raise"}])]}, probe()]
                     return out
                 prog = [new(k, v) for k, v in sorted(objs.items())] + rnd(0)
             mk(cls, cfg, prog, str(variant), exc=variant in (4, 9))
+            if not any(st.get("cb") for st in prog):
+                # the same program with the harness NOT asking get_context_arguments() at the block boundaries
+                cases.append(dict(cases[-1], unobserved=True, label=cases[-1]["label"] + "/unobserved"))
     return cases
 
 
